@@ -38,6 +38,9 @@ COMPRESS_Q = R("compress_q", "compress_q.cfg", expect_ops=["compress", "uncompre
 ENCRYPT_Q = R("encrypt_q", "encrypt_q.cfg", expect_ops=["encrypt_subject", "decrypt_subject", "encrypt", "decrypt", "forge_encrypted", "tamper"],
               expect_out=["decrypt_subject:err", "decrypt_subject:ok", "decrypt:ok", "encrypt_subject:err"])
 
+DECODE_Q = R("decode_q", "decode_q.cfg", expect_ops=["decode_wire", "encode_decode"], expect_out=["decode_wire:ok", "decode_wire:err"])
+DECODE_T = R("decode_t", "decode_t.cfg", expect_ops=["decode_wire"], timeout=3000)
+
 PLAN = {
     "C01": dict(
         rule="every transition TLC explores in the bounded machine (all call sequences up to the depth bound over the listed action families, 2 registers, atoms a1,a2 + known value 1, plus every clear shape of <= 5 elements as input to the obscuring calls) is executed against the real library in several concretisation rounds (atoms -> typed values of every leaf CBOR type); the digest of the result and of every element of it must equal SHA-256 evaluated from the specification's digest term. non-trivial = distinct (call, expected result) pairs whose result has >= 2 elements or is an error",
@@ -59,7 +62,7 @@ PLAN = {
     ),
     "C05": dict(
         rule="encode->decode (bytes, CBOR value and UR string variants) of every envelope reachable in the bounded machine; decoded projection identical and re-encoding byte-identical",
-        quick=[CORE_ALL3],
+        quick=[CORE_ALL3, DECODE_Q],
     ),
     "C07": dict(
         rule="all insertion sequences of the bounded machine; results compared with the order-free (set based) specification term, byte for byte",
@@ -87,5 +90,10 @@ PLAN = {
     "C16": dict(
         rule="every call of every configuration runs under catch_unwind; a panic is never an allowed outcome. This check runs the query / lookup / extraction family and the transform / obscure families on every shape, node-subject nodes, decorated (assertion-on-assertion) shapes and their obscured variants",
         quick=[QUERY_Q, OBS_Q, CORE_ALL3],
+    ),
+    "C06": dict(
+        rule="wire terms: the encoding of every shape (<= 5 elements, node-subject nodes, decorated assertions, nodes with 2-3 assertions, tagged-known-value leaves) and of its obscured variants, mutated at one position (reorder / duplicate assertion elements, drop all assertions, non-assertion in an assertion slot, unknown tag, leaf<->envelope retag, legacy leaf tag, digest one byte short/long, 0- or 2-entry assertion map, encrypted/compressed without digest or with a surplus element, non-minimal head, indefinite length, float/text/negative/bool in an element position); thorough: two positions. Each evaluated to bytes and given to the real decoder; the specification's decoder says accept (and what) or reject",
+        quick=[DECODE_Q],
+        thorough=[DECODE_Q, DECODE_T],
     ),
 }
